@@ -216,6 +216,36 @@ theorem C03_slowstart_configured_positive (c : Cl) (retry : Int) (h n : Nat) (su
       rw [hid] at hav
       exact ⟨b0, hb0, by rw [hid], hav, fun _ _ h3 => absurd h3 ht⟩
 
+/-! ### Backend reload (`BalanceRR.Update`) -/
+
+/-- **The weights after a backend reload are those of the LAST configuration**, whatever the list was before:
+    the new list holds exactly the configured addresses, each with 100 x its configured weight (so a backend
+    re-configured with weight <= 0 is ineligible from then on, and a removed one is gone). -/
+theorem C03_update_last_conf (bs : List Be) (conf : BConf) (hnd : (conf.map (·.1)).Nodup) :
+    (∀ b ∈ updateBs bs conf, ∃ p ∈ conf, p.1 = b.addr ∧ b.w = 100 * p.2) ∧
+    (∀ p ∈ conf, ∃ b ∈ updateBs bs conf, b.addr = p.1 ∧ b.w = 100 * p.2) := by
+  unfold updateBs
+  constructor
+  · intro b hb
+    rcases List.mem_append.mp hb with hb | hb
+    · obtain ⟨b0, _, h⟩ := List.mem_filterMap.mp hb
+      obtain ⟨p, hp, rfl⟩ := Option.map_eq_some_iff.mp h
+      have hk := List.find?_some hp
+      exact ⟨p, List.mem_of_find?_eq_some hp, by simpa using hk, rfl⟩
+    · obtain ⟨p, hp, rfl⟩ := List.mem_map.mp hb
+      exact ⟨p, (List.mem_filter.mp hp).1, rfl, rfl⟩
+  · intro p hp
+    by_cases hex : ∃ b0 ∈ bs, b0.addr = p.1
+    · obtain ⟨b0, hb0, ha⟩ := hex
+      have hf : conf.find? (·.1 == b0.addr) = some p := by
+        rw [ha]; exact find?_of_nodup_keys conf hnd p hp
+      refine ⟨{ b0 with w := 100 * p.2, cur := if p.2 ≤ 0 then 0 else b0.cur }, ?_, ha, rfl⟩
+      exact List.mem_append.mpr (Or.inl (List.mem_filterMap.mpr ⟨b0, hb0, by simp [hf]⟩))
+    · refine ⟨_, List.mem_append.mpr (Or.inr (List.mem_map.mpr ⟨p, List.mem_filter.mpr ⟨hp, ?_⟩, rfl⟩)), rfl, rfl⟩
+      simp only [Bool.not_eq_true', List.any_eq_false, beq_iff_eq]
+      intro b0 hb0 ha
+      exact hex ⟨b0, hb0, by simpa using ha⟩
+
 /-! ### Reload histories -/
 
 /-- the sub-cluster list keeps pairwise distinct names through `Init` and through every `Reload`, successful or not -/
